@@ -1050,6 +1050,18 @@ class Exec:
                       z3.ForAll([x], M.has(r, x) == z3.And(M.has(za, x), z3.Not(M.has(zb, x))), patterns=[M.has(r, x)]))
             self.used_assumptions.add("builtin: set difference (membership; size at most that of the left operand)")
             return [(st, T(r, "set"))]
+        SETLIKE = ("set", "frozenset", "dict_keys")
+        if isinstance(op, (ast.BitOr, ast.BitAnd)) and ha in SETLIKE and hb in SETLIKE:
+            za, zb = self.term(a, st), self.term(b, st)
+            r = M.fresh("setop")
+            x = z3.Const("x", Obj)
+            both = (z3.Or if isinstance(op, ast.BitOr) else z3.And)(M.has(za, x), M.has(zb, x))
+            st.assume(M.is_Ref(r), M.rcls(r) == self.ct.id("set"), M.klen(r) >= 0,
+                      M.klen(r) <= M.klen(za) + M.klen(zb),
+                      z3.ForAll([x], M.has(r, x) == both, patterns=[M.has(r, x)]))
+            self.used_assumptions.add("builtin: set union / intersection (membership; the result is a new set, whose "
+                                      "iteration order is that of a set)")
+            return [(st, T(r, "set"))]
         if isinstance(op, ast.Sub) and ha in ("date", "datetime") and hb == "timedelta":
             r = M.fresh("date")
             st.assume(M.is_Ref(r), M.rcls(r) == self.ct.id(ha))
